@@ -280,14 +280,15 @@ theorem run_count (u : String) : ∀ (ops : List Op) (s : St), Inv s → Mono s.
 /-- a successful `_inject_task1`: the table entry of the uid afterwards -/
 theorem injectAs_find {s : St} (h : Inv s) {uid : String} {ms dur : Nat} {occ : List Nat} {e : Nat}
     (hs : occ.Pairwise (· ≤ ·)) (he : e ≠ notAUid ∧ s.users.contains e = true)
-    (hown : ∀ old, s.find uid = some old → old.owner = e) :
+    (hown : ∀ old, s.find uid = some old → old.owner = e) (hu : uid ≠ "") :
     (injectAs s uid ms dur occ true e).2 = true ∧
     ∃ t', (injectAs s uid ms dur occ true e).1.find uid = some t' ∧ t'.uid = uid ∧ t'.owner = e ∧
       t'.maxSimul = ms ∧ t'.occ = occ.dropWhile (· < s.now) ∧
       (match s.find uid with | some old => t'.sid = old.sid ∧ t'.nsim = old.nsim | none => t'.sid = s.nextSid ∧ t'.nsim = 0) := by
   have hinv' := Inv_injectAs h uid ms dur occ true e hs he
   unfold injectAs at hinv' ⊢
-  simp only [Bool.not_true, Bool.false_eq_true, if_false] at hinv' ⊢
+  have hue : (uid == "") = false := by simpa using hu
+  simp only [hue, Bool.not_true, Bool.or_false, Bool.false_eq_true, if_false] at hinv' ⊢
   cases hf : s.find uid with
   | none =>
     rw [hf] at hinv'
